@@ -9,7 +9,7 @@ from harness.props import c02
 
 NAMES = ['div', 'span', 'p']
 IDS = ['a', 'b', 'c', 'd', 'e', 'f', 'g', 'h', 'i', 'j', 'k', 'l', 'm', 'n', 'o', 'q']
-CLASSES = ['x', 'y', 'z', 'w']
+CLASSES = ['x', 'y', 'xy', 'w']        # 'xy' holds two other names as substrings: a token test is not a substring test
 NAMEVALS = ['n1', 'n2']
 DATAVALS = ['1', '2', 'Abc', 'abcd']
 TEXTS = ['hello', 'Hello world', 'x', '']
